@@ -393,8 +393,111 @@ fn replace_in_expr(e: &mut Expr, k: &mut isize, with: &Expr) {
     }
 }
 
+/// Stage pressure: one program per string-pool size class that keeps more strings of that class
+/// alive than the class has slots (so that the class runs dry and allocation falls back to the
+/// arena), releases them all, and fills the class again. The interpreter must neither crash nor
+/// show anything but the strings the program built.
+fn pressure_program(size: u32, slots: u32, pattern: u32) -> (String, Vec<String>) {
+    let n = slots as usize + 100;
+    // every string is `<pad><6-digit number>`: exactly `size` bytes
+    let pad = "p".repeat(size as usize - 6);
+    let item = |k: usize| format!("{pad}{}", 100_000 + k);
+    let mut s = String::new();
+    let mut out = Vec::new();
+    s.push_str(&format!("make pad get \"{pad}\"\nmake keep get pad add 999999\nmake a get []\nmake i get 0\njasi (i small pass {n}) start\n    a.push(pad add (100000 add i))\n    i get i add 1\nend\n"));
+    s.push_str(&format!("shout(a.len())\nshout(a[0])\nshout(a[{}])\nshout(a[{}])\n", slots as usize - 1, n - 1));
+    out.extend([n.to_string(), item(0), item(slots as usize - 1), item(n - 1)]);
+    match pattern {
+        0 => {
+            // release everything front to back, fill again
+            s.push_str(&format!("i get 0\njasi (i small pass {n}) start\n    a[i] get 0\n    i get i add 1\nend\n"));
+            s.push_str(&format!("i get 0\njasi (i small pass {n}) start\n    a[i] get pad add (200000 add i)\n    i get i add 1\nend\n"));
+            s.push_str(&format!("shout(a[0])\nshout(a[{}])\n", n - 1));
+            out.extend([format!("{pad}{}", 200_000), format!("{pad}{}", 200_000 + n - 1)]);
+        }
+        1 => {
+            // release by popping (back to front), then push again
+            s.push_str(&format!("i get 0\njasi (i small pass {n}) start\n    make d get a.pop()\n    i get i add 1\nend\nshout(a.len())\n"));
+            s.push_str(&format!("i get 0\njasi (i small pass {n}) start\n    a.push(pad add (300000 add i))\n    i get i add 1\nend\n"));
+            s.push_str(&format!("shout(a[0])\nshout(a[{}])\n", n - 1));
+            out.extend(["0".to_string(), format!("{pad}{}", 300_000), format!("{pad}{}", 300_000 + n - 1)]);
+        }
+        _ => {
+            // churn one variable through more values than the class has slots, in a function
+            s.push_str(&format!("do churn(k) start\n    make v get pad add 400000\n    make j get 0\n    jasi (j small pass k) start\n        v get pad add (400000 add j)\n        j get j add 1\n    end\n    return v\nend\nshout(churn({}))\n", n + 50));
+            out.push(format!("{pad}{}", 400_000 + n + 49));
+        }
+    }
+    s.push_str("shout(keep)\nshout(a.len())\n");
+    out.push(format!("{pad}999999"));
+    out.push(if pattern == 1 { n.to_string() } else { n.to_string() });
+    (s, out)
+}
+
+fn run_pressure(ctx: &mut Ctx) {
+    let sizes = naijascript::arena::pool_verif::slot_sizes();
+    let counts = naijascript::arena::pool_verif::slot_counts();
+    // per class: the largest size of the class, and the smallest one (previous size + 1)
+    let mut cases: Vec<(u32, u32, u32)> = Vec::new();
+    for (c, (&size, &slots)) in sizes.iter().zip(counts.iter()).enumerate() {
+        let lo = if c == 0 { 6 } else { sizes[c - 1] + 1 };
+        for sz in [size, lo.max(6)] {
+            if sz < 6 {
+                continue;
+            }
+            for pattern in 0..3 {
+                cases.push((sz, slots, pattern));
+            }
+        }
+    }
+    // one size above the largest class: never pooled
+    let top = *sizes.last().unwrap();
+    for pattern in 0..3 {
+        cases.push((top + 1, 600, pattern));
+    }
+    ctx.out.extra.insert("pressure_size".into(), json!(cases.len()));
+    let idxs: Vec<u64> = ctx.indices().filter(|i| (*i as usize) < cases.len()).collect();
+    for idx in idxs {
+        ctx.out.begin(idx);
+        ctx.out.evaluations += 1;
+        let (size, slots, pattern) = cases[idx as usize];
+        let (src, expected) = pressure_program(size, slots, pattern);
+        let replay = json!({"stage": "pressure", "string_bytes": size, "class_slots": slots, "pattern": pattern, "src_head": src.chars().take(600).collect::<String>()});
+        match util::guarded(|| pipeline::run_source(&src, RunCfg::default())) {
+            Ok(real) => {
+                if !real.accepted {
+                    ctx.out.inconclusive(idx, "pressure program rejected by the front end", json!({"sem": format!("{:?}", real.sem.first())}));
+                    continue;
+                }
+                if real.ending != "ok" || real.output != expected {
+                    let k = real.output.iter().zip(expected.iter()).position(|(a, b)| a != b).unwrap_or(real.output.len().min(expected.len()));
+                    ctx.out.fail(
+                        idx,
+                        &format!("pressure|wrong-result|pattern{pattern}"),
+                        json!({"string_bytes": size, "class_slots": slots, "ending": real.ending, "first_difference_at": k,
+                               "got": real.output.get(k).map(|s| s.chars().take(80).collect::<String>()), "expected": expected.get(k).map(|s| s.chars().take(80).collect::<String>())}),
+                        replay,
+                    );
+                    continue;
+                }
+                ctx.out.tag(&format!("pressure.pattern{pattern}"));
+                ctx.out.tag_n("pressure.pool_fallback", pipeline::counter(&real, "pool_fallback"));
+                ctx.out.nontrivial(util::hash64(format!("pressure|{size}|{pattern}").as_bytes()));
+            }
+            Err((msg, loc)) => {
+                let sig = format!("panic|{}|{}", util::normalise_msg(&msg), util::panic_site(&loc));
+                ctx.out.fail(idx, &sig, json!({"class": "pool-pressure", "string_bytes": size, "class_slots": slots, "pattern": pattern, "panic": msg, "at": loc}), replay);
+            }
+        }
+    }
+}
+
 pub fn run(ctx: &mut Ctx) {
     let stage = ctx.opt("stage").unwrap_or("product").to_string();
+    if stage == "pressure" {
+        run_pressure(ctx);
+        return;
+    }
     if stage == "product" {
         let cases = build_cases();
         ctx.out.extra.insert("product_size".into(), json!(cases.len()));
